@@ -196,6 +196,12 @@ func (x *Run) callFunc(fr *Frame, st *State, fn *ssa.Function, args []Val, bindi
 		}
 		return x.useSelfCall(fr, st, fn, args, site)
 	}
+	// --- "hold the lock before calling this function" ---
+	if x.spec.lockHeld != nil && !fr.inPure() && !x.isVerifPkg(fn) {
+		if key := x.heldLockKey(fn, args); key != "" && site != nil {
+			x.obligeStatic(st, "lock."+x.fnShort(fr.fn)+".calls-"+fn.Name()+"-with-lock-held", "lock", st.held[key] != 0, site.Pos(), "callee requires the receiver's mutex to be held")
+		}
+	}
 	// --- trusted replacement ---
 	if sf := x.spec.stubs[name]; sf != nil && !(fr.con != nil && fr.con.Target == fn) {
 		x.mu.Lock()
